@@ -4,7 +4,7 @@
     by the extracted OCaml runner, so the two evaluation routes check each other.
     Nothing in this file is used by a theorem. *)
 From Coq Require Import String.
-From OtpV Require Import Prelude Sha Tables Errors Decoder Derive Otp Ocra Rfc4226 Rfc6287 Rfc4648 Utils Random Suite SuiteName Url Wasm JsExports.
+From OtpV Require Import Prelude Sha Tables Errors Decoder Derive Otp Ocra Rfc4226 Rfc6287 Rfc4648 Utils Random Suite SuiteName Url Wasm JsExports Rest.
 Open Scope string_scope.
 Open Scope N_scope.
 Open Scope list_scope.
@@ -153,6 +153,84 @@ Definition parse_urlparam (f : list bytes) (i : nat) : urlparam :=
 Definition gen_url (kind : bytes) (p : urlparam) : outcome url :=
   if bytes_eqb kind (s2b "t") then generate_totp_url p else generate_hotp_url p.
 
+(** ---- REST service (C18, C19) ---- *)
+(** body specification: M:/N: raw text (malformed / valid but not an object), Z: raw text that decodes
+    like an empty object (null, {}), O:<fields>, - no body.  fields: name~kind~value;... *)
+Fixpoint parse_fields (fuel : nat) (s : bytes) : list (bytes * jv) :=
+  match fuel with
+  | O => []
+  | S f =>
+    match s with
+    | [] => []
+    | _ =>
+      map (fun fld_ =>
+             let p := split_on 126 fld_ in
+             let name := fld p 0 in let kind := fld p 1 in let v := fld p 2 in
+             (name,
+              if bytes_eqb kind (s2b "s") then JvStr (unhx v)
+              else if bytes_eqb kind (s2b "i") then JvInt (parse_Z v)
+              else if bytes_eqb kind (s2b "r") then JvFrac
+              else if bytes_eqb kind (s2b "b") then JvBool (parse_bool v)
+              else if bytes_eqb kind (s2b "n") then JvNull
+              else if bytes_eqb kind (s2b "a") then JvArr
+              else JvObj (parse_fields f (unhx v))))
+          (split_on 59 s)
+    end
+  end.
+Definition parse_body (spec : bytes) : body :=
+  match spec with
+  | 77 :: _ => BMalformed
+  | 78 :: _ => BNonObject
+  | 90 :: _ => BObject []
+  | 79 :: _ :: t => BObject (parse_fields 4 t)
+  | _ => BMalformed          (* no body: json.Unmarshal of an empty input fails *)
+  end.
+Definition strip_alg_query (q : bytes) : bytes :=
+  if is_prefix (s2b "algorithm=") q then skipn 10 q else [].
+Definition opt_num (o : option bytes) : bytes := match o with Some t => t | None => [45] end.
+Definition r_payload (st : N) (p : payload) (now_dependent : bool) : bytes :=
+  dec_of_N st ++ [124] ++
+  match p with
+  | PCode code ts counter suite =>
+    if now_dependent then s2b "code:@now"
+    else s2b "code:x" ++ hex_of code ++ s2b ",ts=" ++ opt_num (option_map dec_of_Z ts) ++ s2b ",counter=" ++ opt_num (option_map dec_of_N counter)
+         ++ s2b ",suite=" ++ match suite with Some n => s2b "x" ++ hex_of n | None => [45] end
+  | PValid b => if now_dependent then s2b "valid:@now" else s2b "valid:" ++ b01 b
+  | PUrl u => s2b "url:x" ++ hex_of u
+  | PSecret a => s2b "secret:x" ++ hex_of (alg_string a) ++ s2b ",len=" ++
+                 dec_of_N (match secret_size a with Some n => N.of_nat n | None => 0 end) ++ s2b ",wellformed=1"
+  | PSuites names => s2b "suites:" ++ join 44 (sort_names names)
+  | PSuiteCfg raw c =>
+    s2b "suitecfg:x" ++ hex_of raw ++ s2b ",x" ++ hex_of (alg_string (sc_hash c)) ++ [44] ++ dec_of_Z (sc_digits c) ++ [44] ++ dec_of_Z (sc_challenge c)
+    ++ [44] ++ b01 (sc_c c) ++ [44] ++ b01 (sc_q c) ++ [44] ++ b01 (sc_p c) ++ [44] ++ b01 (sc_s c) ++ [44] ++ b01 (sc_t c)
+    ++ [44] ++ dec_of_Z (sc_pwhash c) ++ [44] ++ dec_of_Z (sc_timestep c)
+  | PHome => s2b "home:"
+  | PError msg => s2b "err:x" ++ hex_of msg
+  | PText t => s2b "text:x" ++ hex_of t
+  | PRedirect l => s2b "loc:x" ++ hex_of l
+  | POther => s2b "other"
+  end.
+(** is the answer a function of the server's clock? (timestamp absent, null or not positive) *)
+Definition uses_now (path : bytes) (b : body) : bool :=
+  (bytes_eqb path (s2b "/totp/generate") || bytes_eqb path (s2b "/totp/validate")) &&
+  match b with
+  | BObject f => match field "timestamp" f with Some (JvInt z) => (z <=? 0)%Z | _ => true end
+  | _ => false
+  end.
+Definition run_rest (f : list bytes) : bytes * bool :=
+  let meth := fld f 2 in
+  let path := unhx (fld f 3) in
+  let b := parse_body (fld f 5) in
+  let req := mkReq meth path (strip_alg_query (unhx (fld f 4))) b in
+  let '(resp, _) := handle 1%Z req in
+  (r_payload (status resp) (pay resp) (uses_now path b && (status resp =? 200)), true).
+
+Definition run_fields8 (f : list bytes) : bytes * bool :=
+  let op := fld f 0 in
+  if bytes_eqb op (s2b "rreq") then run_rest f
+  else if bytes_eqb op (s2b "rburst") then (s2b "ok:", true)
+  else (s2b "unknown-op", true).
+
 (** ---- WebAssembly / JavaScript binding (C20) ---- *)
 Definition parse_js_int (s : bytes) : Z :=
   match s with
@@ -197,7 +275,7 @@ Definition run_fields7 (f : list bytes) : bytes * bool :=
     | None => (s2b "nofunc", true)
     end
   else if bytes_eqb op (s2b "wexports") then (exports_text, true)
-  else (s2b "unknown-op", true).
+  else run_fields8 f.
 
 (** the native library's answer for a call of the binding with well-typed arguments in the common
     domain (counter / timestamp < 2^53, period 1..3600, skew 0..10): the specification column *)
